@@ -19,7 +19,7 @@ PROPS = {
     ],
   },
   'C18': {
-    'rule': 'cases = (well-nested task program of up to 200 (quick) / 5000 (thorough) operations from the grammar task ::= (section|other)* end; section ::= (create(task)|section|other)* wait, generated busy-work per interval, serial simulation of a work-stealing run on W in 1..8 virtual workers with generated start/resume workers, generated contraction options (collapse_max, uncollapse_min, collapse_max_count, node_count_target/prune_threshold, chk_level), 1..50 file names); '
+    'rule': 'cases = (well-nested task program of up to 200 (quick) / 5000 (thorough) operations from the grammar task ::= (section|other)* end; section ::= (create(task)|section|other)* wait, generated busy-work per interval, simulation of a work-stealing run on W in 1..8 virtual workers with generated start/resume workers and a generated schedule per create (child first, child started in a later create/other window of the section, or child run after the parent entered its wait), generated contraction options (collapse_max, uncollapse_min, collapse_max_count, node_count_target/prune_threshold, chk_level), 1..50 file names); '
             'non-trivial = the dumped DAG has fewer materialised nodes than logical nodes (something was contracted) AND intervals of >= 2 workers; distinct = hash of (program bytes, W)',
     'assumptions': ['clocks are real rdtsc readings: work and critical path are compared within each run against the values the hooks saw, never across runs', 'edge totals of the uncontracted DAG are defined as create = create_cont = end = #create intervals, wait_cont = #wait intervals, other_cont = #other intervals', 'the simulator is serial: a child task runs to completion before its parent continues (any such execution is a legal schedule)'],
     'stages': [
@@ -98,7 +98,7 @@ PROPS = {
     ],
   },
   'C20': {
-    'rule': 'cases = (virtual clock: start value with nanosecond field at both ends, cycle of 1..8 per-reading increments from {0,1ns,..,2s}; 1..4 threads with scripts of nanosleep/usleep/sleep (incl. zero, carries, malformed fields), timedlock against holder sections and on uncontended mutexes, timedjoin against targets of generated length, deadlines past / in k ticks -1/0/+1 ns; one quarter of the cases on one worker with an always-runnable sibling; W in 1..8; schedule); '
+    'rule': 'cases = (virtual clock: start value with nanosecond field at both ends, cycle of 1..8 per-reading increments from {0,1ns,..,2s}; 1..4 threads with scripts of nanosleep/usleep/sleep (incl. zero, carries, malformed fields; the rem argument of nanosleep NULL, separate or the request object itself), timedlock against holder sections and on uncontended mutexes, timedjoin against targets of generated length, deadlines past / in k ticks -1/0/+1 ns; one quarter of the cases on one worker with an always-runnable sibling; W in 1..8; schedule); '
             'non-trivial = a sleep really polled the clock (>= 3 readings) or a timed lock / timed join timed out; distinct = hash of (program, schedule, seed)',
     'assumptions': COMMON_ASSUME + ['the clock is virtual (guarded hook in hr_gettime); real-clock behaviour is only exercised by the pinned tests', 'either timeout code (ETIMEDOUT / EBUSY) is accepted as "a timeout error"'],
     'stages': [
